@@ -106,6 +106,7 @@ for _p in ("C01", "C07", "C12", "C13"):
     PROPS[_p]["engines"].append({"engine": "seqtx", "shim": False})
 PROPS["C13"]["engines"].append({"engine": "sched", "shim": True})
 PROPS["C20"]["engines"].append({"engine": "sched", "shim": True})
+PROPS["C02"]["engines"].append({"engine": "sched", "shim": True})
 PROPS["C07"]["engines"].append({"engine": "sched", "shim": True})
 PROPS["C06"]["engines"].append({"engine": "sched", "shim": True})
 PROPS["C08"]["engines"].append({"engine": "sched", "shim": True})
@@ -142,7 +143,7 @@ ENGINES = [
      "kind_free_text": "every truncation offset / single-byte change of the un-checkpointed WAL tail of bounded-history stores, opened with the real Cas::open"},
     {"name": "plant", "path": "harness/src/plant.rs", "serves_properties": ["C08"],
      "kind_free_text": "exhaustive small subsets of planted garbage/corruption in every bounded-history store: scan classification and clean-up exactness"},
-    {"name": "sched", "path": "harness/src/sched.rs + conc.rs", "serves_properties": ["C04", "C05", "C15", "C06", "C07", "C08", "C13", "C20"],
+    {"name": "sched", "path": "harness/src/sched.rs + conc.rs", "serves_properties": ["C04", "C05", "C15", "C02", "C06", "C07", "C08", "C13", "C20"],
      "kind_free_text": "CHESS-style controlled scheduler over the real parking_lot locks and real files (repo hooks + LD_PRELOAD shim), preemption-bounded exhaustive DFS, linearizability by brute force"},
     {"name": "open", "path": "harness/src/open.rs", "serves_properties": ["C11", "C19"],
      "kind_free_text": "racing opens under the controlled scheduler with every filesystem call as a point; cross-process pause/kill of the owner; exhaustive settings-gate configurations"},
